@@ -286,6 +286,8 @@ def prune_histories(r, thorough):
     if "py_history" in d:
       hs.append(("corpus:" + f, [tuple(o) for o in d["py_history"]]))
   n_rand, n_struct, n_single, n_max = (900, 700, 40, 6) if thorough else (130, 110, 8, 2)
+  for i in range(300 if thorough else 40):
+    hs.append((f"entry{i}", P.gen_entry(r, r.randint(2, 10) if i % 4 else r.choice([64, 65, 70, 130]))))
   for i in range(n_rand):
     small = i % 3 != 0
     hs.append((f"rand{i}", P.gen_random(r, r.randint(5, 45) if small else r.randint(40, 90),
@@ -328,7 +330,8 @@ def run_prune_leg(res, thorough):
     except Exception as e:       # the real API refused a generated call: a generator defect, fail closed
       res.obligation("prune-impl-run:" + name, False, repr(e)[:300])
       return
-  inp = "\n".join(P.to_line(rh) for _, rh, _, _ in impl) + "\n"
+  # entrypoint writes (op E) are erased for the model run: Props/C09.v pe_run_core / entrypoint_irrelevant
+  inp = "\n".join(P.to_line([o for o in rh if o[0] != "E"]) for _, rh, _, _ in impl) + "\n"
   pr = subprocess.run([exe], input=inp, capture_output=True, text=True)
   if pr.returncode != 0:
     res.obligation("prune-model-run", False, pr.stderr[-2000:])
